@@ -7,7 +7,7 @@
 //   pool   j threads posting / cancelling against cppcms::thread_pool, throwing jobs, stop racing with posts.
 //   fdops  dedicated, deterministic-by-rendezvous scenarios for the ordering of deferred descriptor operations
 //          (cancel_io_events queued behind the poll, a later set_io_event executed directly, descriptor numbers re-used meanwhile);
-//          regression of the defect repaired by /repo b2c5482.  The loop property searches the same classes with generated programs:
+//          regression of the defect repaired by /repo 4a502e5.  The loop property searches the same classes with generated programs:
 //          descriptor operations take effect in the order in which the calls were made (calls that overlap in time: either order).
 //
 // Liveness ("the handler is eventually invoked") is never decided by a clock.  The poll primitives of the three reactors are
